@@ -1,0 +1,47 @@
+//go:build verif
+
+package vgirpc
+
+// Verification hooks (build tag "verif") for sticky-session tokens. Add-only
+// thin wrappers; nothing here is compiled into normal builds.
+
+// VerifC13SealSession seals a sticky-session token for auth under this
+// server's token key with caller-chosen contents.
+func (h *HttpServer) VerifC13SealSession(serverID string, sid []byte, expiresAt int64, auth *AuthContext, now int64) (string, error) {
+	var id [sessionIDLen]byte
+	copy(id[:], sid)
+	return sealSessionToken(h.tokenKey, serverID, id, expiresAt, stateTokenAad(auth), now)
+}
+
+// VerifC13PeekSession opens a sticky-session token for auth and returns its
+// contents.
+func (h *HttpServer) VerifC13PeekSession(token string, auth *AuthContext) (serverID string, sid []byte, expiresAt int64, err error) {
+	gotServerID, id, exp, err := openSessionToken(token, h.tokenKey, stateTokenAad(auth))
+	if err != nil {
+		return "", nil, 0, err
+	}
+	return gotServerID, append([]byte(nil), id[:]...), exp, nil
+}
+
+// VerifC13PrincipalKey runs principalKeyFromAuth.
+func VerifC13PrincipalKey(auth *AuthContext) string { return principalKeyFromAuth(auth) }
+
+// VerifC13SessionLive reports whether the registry holds an entry for sid,
+// and the principal key it is bound to (without evicting or locking it).
+func (h *HttpServer) VerifC13SessionLive(sid []byte) (principalKey string, ok bool) {
+	if h.stickyRegistry == nil {
+		return "", false
+	}
+	var id [sessionIDLen]byte
+	copy(id[:], sid)
+	h.stickyRegistry.mu.Lock()
+	defer h.stickyRegistry.mu.Unlock()
+	e, found := h.stickyRegistry.entries[id]
+	if !found {
+		return "", false
+	}
+	return e.principalKey, true
+}
+
+// VerifC13SessionVersion returns the sticky-session token version byte.
+func VerifC13SessionVersion() int { return sessionTokenVersion }
